@@ -1,7 +1,7 @@
 """C15 — merge is the union.  Deciding oracle: post-contract on the real Sequence.merge; the driver adds the
 permutation differential (notes must not depend on merge order)."""
 from vmon import gen
-from vmon.checks.common import obs, fail, both_views
+from vmon.checks.common import obs, fail, both_views, random_prefix, apply_prefix
 
 PROP = "C15"
 MONITORS = ["merge"]
@@ -46,13 +46,14 @@ def make_case(rng, i, tier):
         seqs.append(spec)
     perm = list(range(k))
     rng.shuffle(perm)
-    return {"seqs": seqs, "perm": perm, "into_empty": rng.random() < 0.5}
+    prefixes = [[op for op in random_prefix(rng, n=(1, 2)) if op["op"] != "merge_empty"] if (i % 4 == 3 and rng.random() < 0.6) else [] for _ in seqs]
+    return {"seqs": seqs, "perm": perm, "into_empty": rng.random() < 0.5, "prefixes": prefixes}
 
 
 def run(case, ctx):
     from vmon.monitors import LOG
     from scoda.sequences.sequence import Sequence
-    seqs = [gen.build_seq(s) for s in case["seqs"]]
+    seqs = [apply_prefix(gen.build_seq(s), pf) for s, pf in zip(case["seqs"], case.get("prefixes") or [[]] * len(case["seqs"]))]
     pre = [obs(s) for s in seqs]
     fails = []
     if case["into_empty"]:
